@@ -246,6 +246,10 @@ func IterateFields(t types.Type, cb func(*types.Var) (done bool)) {
 
 	for i := 0; i < strct.NumFields(); i++ {
 		m := strct.Field(i)
+		if m.Name() == "_" {
+			// A blank field can be neither read nor written.
+			continue
+		}
 		if cb(m) {
 			return
 		}
